@@ -604,9 +604,10 @@ def leak_rule(rep: Report, prog: Program, PROP: str, RULE: str, tier: str) -> No
     def sender(cwnd):
         return SimpleNamespace(__cls__=ci, _sent_queue=deque(), _outbound_queue=deque(), _last_sacked_tsn=99, _advanced_peer_ack_tsn=99, _forward_tsn_chunk=None,
                                _forward_tsn_pending=None, _forward_tsn_streams={}, _flight_size=0, _cwnd=cwnd, _ssthresh=131072, _partial_bytes_acked=0,
-                               _fast_recovery_exit=None, _fast_recovery_transmit=False, _t3_handle=None, _rto=3.0, _srtt=None, _rttvar=None, delivered=[])
+                               _fast_recovery_exit=None, _fast_recovery_transmit=False, _t3_handle=None, _rto=3.0, _srtt=None, _rttvar=None, _local_tsn=100, delivered=[])
 
     def queue(me, first_tsn, stream, seq, nfrag, policy):
+        me._local_tsn = (first_tsn + nfrag) % (1 << 32)
         msg = message(first_tsn, stream, seq, nfrag, False, policy, "x", 0)
         for c in msg:
             c.user_data = b"d" * MTU
@@ -673,3 +674,32 @@ def leak_rule(rep: Report, prog: Program, PROP: str, RULE: str, tier: str) -> No
             rep.fail(mk_finding(prog, PROP, RULE, m("_maybe_abandon") if policy is not None else sackf, None, f"[{label}] {problem}", construct="flight size: " + label.split(",")[0] + ", " + label.split(", ")[-1]))
         else:
             rep.ok(RULE, label, sample=f"{len(events)} events: never over-counted; new data goes out after the last ack")
+    # a SACK that acknowledges TSNs which were never assigned is nonsense, not an acknowledgement
+    for first, bogus, label in ((100, 100000, "cumulative TSN far beyond the last TSN assigned"), (100, 108, "cumulative TSN one beyond the last TSN assigned"),
+                                ((1 << 32) - 3, 5000, "the same across the TSN wrap")):
+        me = sender(8 * MTU)
+        me._last_sacked_tsn = me._advanced_peer_ack_tsn = (first - 1) % (1 << 32)
+        msg = queue(me, first, 1, 0, 8, None)
+        try:
+            hook.run_method(transmit, me, [], {})
+            sent_before = len(me._sent_queue)
+            hook.run_method(sackf, me, [sack(bogus % (1 << 32))], {})
+            after_bogus = (me._last_sacked_tsn, [c.tsn for c in me._sent_queue])
+            for _ in range(6):
+                top = max([c.tsn for c in me._sent_queue], key=lambda t: (t - first) % (1 << 32), default=None)
+                if top is None:
+                    break
+                hook.run_method(sackf, me, [sack(top)], {})
+        except Raised as ex:
+            rep.fail(mk_finding(prog, PROP, RULE, sackf, getattr(ex, "node", None), f"[bogus SACK, {label}] raises {ex.name}", construct=f"bogus sack raises {ex.name}"))
+            continue
+        except Unknown as ex:
+            raise AnalysisError(f"{RULE} cannot evaluate [bogus SACK, {label}]: {ex}")
+        if after_bogus[0] != (first - 1) % (1 << 32) or len(after_bogus[1]) != sent_before:
+            rep.fail(mk_finding(prog, PROP, RULE, sackf, sackf.node, f"[SACK with {label}] accepted: _last_sacked_tsn became {after_bogus[0]}, outstanding {after_bogus[1]}: outstanding data is dropped as "
+                                "acknowledged and every genuine SACK that follows is discarded as stale", construct="SACK beyond the TSNs assigned is accepted"))
+        elif me._sent_queue or me._outbound_queue:
+            rep.fail(mk_finding(prog, PROP, RULE, sackf, sackf.node, f"[SACK with {label}] afterwards genuine SACKs no longer drain the sender: outstanding {[c.tsn for c in me._sent_queue]}",
+                                construct="sender stuck after a bogus SACK"))
+        else:
+            rep.ok(RULE, f"SACK with {label} is ignored; genuine SACKs still drain the sender")
